@@ -26,7 +26,7 @@ SEEDS_THOROUGH = [str(x) for x in (0, 1, 2, 3, 5, 7, 11, 13, 17, 23, 42, 99, 123
 def stress_api(variant):
     """carrier with >= 2 of everything that lives in a set inside the schema."""
     F = ['r_resource', 's_two_services', 'm_lro', 'f_map', 'f_crossfile', 'f_enum', 'f_nested', 'o_grpc_rest', 'o_metadata', 's_flatten',
-         'r_file_level', 'f_deppkg', 'f_wkt', 'm_paged_map']
+         'r_file_level', 'f_deppkg', 'f_wkt', 'm_paged_map', 's_required']
     if variant % 2:
         F += ['o_mixins', 's_routing', 'm_sstream', 'm_raw_operation']
     api, opts = features.build(F)
@@ -84,13 +84,63 @@ def run_one(args):
     return rc, hashlib.sha256(out).hexdigest(), err[-400:], orders_of(events), out
 
 
+WARM = r'''
+import io, sys
+from gapic.cli import generate
+out = None
+for path in sys.argv[1:]:
+    with open(path, 'rb') as f:
+        b = f.read()
+    out = io.BytesIO()
+    generate.generate.callback(request=io.BytesIO(b), output=out)
+sys.stdout.buffer.write(out.getvalue())
+'''
+
+
+def other_requests(api, opts, work):
+    """requests that share every NAME with the request under test but differ in content: (a) the same API in the next version
+    of the package (acme.lib.v1 -> acme.lib.v2: relative names now resolve elsewhere), (b) the same package with every resource
+    pattern changed.  Generated BEFORE the request under test in one process, they must not influence its response."""
+    import copy
+    txt = json.dumps(api)
+    for a, b in (('acme.lib.v1', 'acme.lib.v2'), ('acme/lib/v1', 'acme/lib/v2')):
+        txt = txt.replace(a, b)
+    v2 = json.loads(txt)
+    alt = copy.deepcopy(api)
+
+    def walk(x):
+        if isinstance(x, dict):
+            if isinstance(x.get('patterns'), list):
+                x['patterns'] = [p if p == '*' else 'regions/{region}/' + p for p in reversed(x['patterns'])]
+            for v in x.values():
+                walk(v)
+        elif isinstance(x, list):
+            for v in x:
+                walk(v)
+    walk(alt)
+    out = []
+    for k, a in (('v2', v2), ('alt', alt)):
+        d = os.path.join(work, 'hist-' + k); os.makedirs(d, exist_ok=True)
+        out.append(absapi.build_request(a, gen.option_string(opts, d, a)).SerializeToString())
+    return out
+
+
+def run_warm(args):
+    """one process that generates the requests in `paths` in order; returns the LAST response."""
+    paths, seed = args
+    e = dict(os.environ); e['PYTHONHASHSEED'] = seed; e.pop(gen.GUARD, None)
+    import subprocess
+    r = subprocess.run([gen.PY, '-W', 'ignore', '-c', WARM] + paths, capture_output=True, env=e, timeout=1800)
+    return r.returncode, hashlib.sha256(r.stdout).hexdigest(), r.stderr.decode('utf-8', 'replace')[-400:], {}, r.stdout
+
+
 def main(chk, args):
     quick = chk.tier == 'quick'
     rnd = random.Random(chk.seed)
     r = tlc.run('Determinism', 'Determinism.cfg' if quick else 'CONSTANTS K = 3 MaxElems = 4 Mutant = "none"\nSPECIFICATION Spec\nINVARIANT Inv_Deterministic\nPROPERTY Live\n',
                 deadlock=False, timeout=1200)
     chk.add_tlc(r, 'Determinism model check')
-    for mut in ('unsorted_site', 'tie_key'):
+    for mut in ('unsorted_site', 'tie_key', 'set_order_defaults', 'process_memo'):
         rm = tlc.run('Determinism', f'CONSTANTS K = 2 MaxElems = 3 Mutant = "{mut}"\nSPECIFICATION Spec\nINVARIANT Inv_Deterministic\n', deadlock=False, timeout=600)
         chk.tlc_runs.append(dict(label=f'Determinism mutant {mut}', **rm.summary()))
         if rm.violated != 'Inv_Deterministic':
@@ -107,8 +157,21 @@ def main(chk, args):
             creq = absapi.build_request(api, gen.option_string(opts, work, api))
             b = creq.SerializeToString()
             jobs = [(b, s, None if i % 2 == 0 else cwd2) for i, s in enumerate(seeds)]
+            # purity: the same request generated in a process that generated other requests (same names, other content) or
+            # the same request before
+            wdir = os.path.join(work, 'warm-' + hashlib.sha1(name.encode()).hexdigest()[:8]); os.makedirs(wdir)
+            paths = []
+            for k, rb in enumerate(other_requests(api, opts, wdir) + [b]):
+                paths.append(os.path.join(wdir, f'req{k}.bin'))
+                with open(paths[-1], 'wb') as f:
+                    f.write(rb)
+            warm = [(paths, seeds[0]), ([paths[-1], paths[-1]], seeds[-1])] if name.startswith('stress') or not quick else []
             with ThreadPoolExecutor(8) as ex:
+                fw = [ex.submit(run_warm, w) for w in warm]
                 res = list(ex.map(run_one, jobs))
+                wres = [f.result() for f in fw]
+            hist = ['fresh'] * len(res) + ['after_other', 'after_same'][:len(wres)]
+            res += wres
             digests = []
             events = []
             bad = [x for x in res if x[0] != 0]
@@ -120,7 +183,7 @@ def main(chk, args):
                     digests.append(dg)
                 for site, order in sorted(orders.items()):
                     events.append(dict(ev='iterate', run=i + 1, site=site, order=order, digest=0))
-                events.append(dict(ev='respond', run=i + 1, site='', order=[], digest=digests.index(dg) + 1))
+                events.append(dict(ev='respond', run=i + 1, site='', order=[], digest=digests.index(dg) + 1, history=hist[i]))
             varied = len({s for s in {e['site'] for e in events if e['ev'] == 'iterate'}
                           if len({tuple(e['order']) for e in events if e['ev'] == 'iterate' and e['site'] == s}) > 1})
             chk.case(name, nontrivial=varied > 0)
@@ -137,9 +200,18 @@ def main(chk, args):
                             if f0.name != f1.name or f0.content != f1.content:
                                 first = f0.name; break
                         break
-                chk.violation(f'nondeterministic:{name}', f'{len(digests)} different responses over PYTHONHASHSEED {seeds} / two working '
-                                                          f'directories; first differing file: {first}', dict(input=name, seeds=seeds))
-            traces.append((name, dict(runs=len(seeds), events=events)))
+                fresh = {x[1] for x, h in zip(res, hist) if h == 'fresh'}
+                if len(fresh) > 1:
+                    chk.violation(f'nondeterministic:{name}', f'{len(fresh)} different responses over PYTHONHASHSEED {seeds} / two working '
+                                                              f'directories; first differing file: {first}', dict(input=name, seeds=seeds))
+                for x, h in zip(res, hist):
+                    if h != 'fresh' and x[1] not in fresh:
+                        bb = plugin_pb2.CodeGeneratorResponse.FromString(x[4])
+                        diff = [f0.name for f0, f1 in zip(a.file, bb.file) if f0.name != f1.name or f0.content != f1.content][:3]
+                        chk.violation(f'impure:{h}:{name}', f'the response differs when the process generated '
+                                      f'{"requests with the same names but other content" if h == "after_other" else "the same request"} '
+                                      f'before; differing files: {diff}', dict(input=name, history=h))
+            traces.append((name, dict(runs=len(res), events=events)))
     accepted, rejected, runs = tlc.validate_all('DeterminismTrace', 'DeterminismTrace.cfg', [t for _, t in traces], timeout=900)
     for r3 in runs:
         chk.states += r3.distinct; chk.transitions += r3.generated
@@ -151,7 +223,9 @@ def main(chk, args):
         chk.violation('trace:nondeterministic:' + traces[idx][0], f'DeterminismTrace rejected the runs: {info}')
     chk.rule = (f'each case = one request generated by separate processes under PYTHONHASHSEED in {seeds} and two working directories; '
                 'inputs: stress APIs with >= 2 elements per set-typed container and equal sort keys + TLC-sampled feature sets; '
-                'non-trivial = at least one container was iterated in two different orders across the processes (reported by hooks)')
+                'non-trivial = at least one container was iterated in two different orders across the processes (reported by hooks); '
+                'purity: two more runs per stress input in processes that first generated the v2 twin + a pattern-perturbed twin of the '
+                'API, resp. the same request')
     for name, t in traces[:2]:
         chk.sample(dict(input=name, events=t['events'][:6]))
     chk.assumptions += ['wall-clock independence is covered only in so far as the runs happen at different times',
